@@ -945,6 +945,39 @@ func (c *Ctx) composerSkeletons(rule string, handlers map[string]*ssa.Function) 
 		}
 		c.Check(rule, "siblings-agree:"+strings.Join(grp, ","), ok, 0, "sibling handlers share one decision skeleton")
 	}
+	// the rebuilt list is written back into the document on every accepting path: a handler that leaves the member
+	// untouched under some condition (say, when the rebuilt list is empty) keeps the entries it was asked to remove
+	memberKey := map[string]string{"public-keys": "publicKey", "services": "service", "also-known-as": "alsoKnownAs"}
+	for _, a := range as {
+		h := handlers[a]
+		if h == nil {
+			continue
+		}
+		key := memberKey[strings.TrimPrefix(strings.TrimPrefix(a, "remove-"), "add-")]
+		var wbs []*ssa.MapUpdate
+		forEachInstr(h, func(in ssa.Instruction) {
+			if mu, ok := in.(*ssa.MapUpdate); ok && unquote(c.Path(mu.Key, nil)) == key {
+				if sliceHas(backSlice(mu.Map), isParam(h, 0)) {
+					wbs = append(wbs, mu)
+				}
+			}
+		})
+		cut := map[edge]bool{}
+		wbBlock := map[*ssa.BasicBlock]bool{}
+		for _, mu := range wbs {
+			wbBlock[mu.Block()] = true
+			for _, sc := range mu.Block().Succs {
+				cut[edge{from: mu.Block(), to: sc}] = true
+			}
+		}
+		skipped := ""
+		for b := range reach(h.Blocks[0], cut) {
+			if r, isR := b.Instrs[len(b.Instrs)-1].(*ssa.Return); isR && maySucceed(r) && !wbBlock[b] {
+				skipped = c.pos(r.Pos())
+			}
+		}
+		c.Check(rule, a+":list-written-back", len(wbs) > 0 && skipped == "", h.Pos(), fmt.Sprintf("%s: the member %q receives the rebuilt list on every accepting path (%d write(s); accepting exit that skips it: %s)", h.Name(), key, len(wbs), skipped))
+	}
 	// every handler loop visits every element: the only way out of a loop, other than its own loop condition, is an
 	// error return — a `break` (or a success return) inside the body drops the remaining entries of the patch / document
 	for _, a := range as {
